@@ -26,7 +26,9 @@ Definition prop_tables (dec : list N) (acc : list (N * N)) : bool :=
                                    && (if 192 <=? b then opt_eqb N.eqb (koi8r b) (Some c) else true)
                        | None => false end) (nrange 256)
   && forallb (fun cb => (snd cb <? 256) &&
-                        (if fst cb <=? 126 then snd cb =? fst cb else true)) acc.
+                        (if fst cb <=? 126 then snd cb =? fst cb else true) &&
+                        (* on 0xC0-0xFF only the KOI8-R character of the byte is accepted *)
+                        (if 192 <=? snd cb then opt_eqb N.eqb (koi8r (snd cb)) (Some (fst cb)) else true)) acc.
 
 Inductive observed := ObsOk (bs : list N) | ObsErr (a e : nat) | ObsOther.
 
